@@ -66,6 +66,50 @@ def placements(toks):
         yield [], [t]
 
 
+# ---- output-file places and names (see gentest_harness.PLACES)
+CWD, SUB, TMP, ALT, SIB, ELSE = 0, 1, 2, 3, 4, 5
+NAMES = ['o.txt', 'Report.txt', 'a-b.txt', 'a_b.txt', 'a.b.txt', 'stdout']
+NAMES_THOROUGH = NAMES + ['stderr', 'report.txt', 'exit_code', 'O.TXT']
+
+
+def specs_for(places, pre):
+    """naming modes under which gentest can see files at these places"""
+    inside = all(p in (CWD, SUB, ALT) for p in places)
+    scanned = all(p in (CWD, SUB, ALT, TMP) for p in places)
+    out = []
+    if scanned:
+        out += ['none', 'dir']
+    out += ['explicit', 'glob']
+    if not inside and TMP not in places:
+        out.append('relative')
+    return out
+
+
+def tf(name, place, lines):
+    return {'kind': 'text', 'sub': place, 'name': name, 'lines': lines}
+
+
+def two_file_sets(tier):
+    """two text outputs with DIFFERENT contents: same base name in two
+    directories, names the sanitiser maps together, case variants, a file
+    called like a stream; over pairs of places."""
+    A, B = ['plain'], ['quotes', 'plain']
+    same = ['Report.txt', 'o.txt', 'stdout']
+    for n in same:
+        for p1, p2 in ((SUB, ALT), (CWD, SUB), (CWD, TMP), (SUB, SIB),
+                       (CWD, ELSE)):
+            yield [tf(n, p1, A), tf(n, p2, B)]
+    pairs = [('a-b.txt', 'a_b.txt'), ('a_b.txt', 'a.b.txt'),
+             ('a-b.txt', 'a.b.txt'), ('Report.txt', 'report.txt'),
+             ('stdout', 'o.txt'), ('Report.txt', 'a-b.txt')]
+    if tier == 'thorough':
+        pairs += [('stderr', 'stdout'), ('exit_code', 'o.txt'),
+                  ('O.TXT', 'o.txt')]
+    for n1, n2 in pairs:
+        for p1, p2 in ((CWD, CWD), (SUB, SUB), (SUB, ALT), (CWD, SIB)):
+            yield [tf(n1, p1, A), tf(n2, p2, B)]
+
+
 SHAPES_FOR_REGEN = [
     mk(out=['plain']),
     mk(out=['today'], err=['host'], iters=3),
@@ -130,7 +174,13 @@ class C11(Check):
              ('files1', 'one output file: kind x place x naming x iterations '
                         'x pre-existing x text content'),
              ('files2', 'two output files'),
-             ('fileopts', 'one output file x stream/exit options')]
+             ('fileopts', 'one output file x stream/exit options'),
+             ('places', 'one text file: place {cwd, sub, alt, sibling '
+                        '<cwd>_out, $TMPDIR, elsewhere} x name alphabet x '
+                        'naming x iterations x already present'),
+             ('twofiles', 'two text files with different contents: same '
+                          'base name / sanitiser-equal / case variants / '
+                          'stream-like names x place pairs x naming')]
         if tier == 'thorough':
             L += [('lines2', 'two lines on one stream (ordered token pairs), '
                              'missing final newline'),
@@ -215,6 +265,27 @@ class C11(Check):
                                         if gh.FILE_KINDS[k][1] is None
                                         else {'kind': k, 'sub': 0}],
                                  spec=sp, **op)
+        elif layer == 'places':
+            names = NAMES_THOROUGH if tier == 'thorough' else NAMES
+            for place in (CWD, SUB, ALT, SIB, TMP, ELSE):
+                for n in names:
+                    for pre in (0, 1):
+                        for sp in specs_for([place], pre):
+                            for it in (1, 2):
+                                yield mk(out=['plain'], err=['today'],
+                                         files=[tf(n, place, ['plain',
+                                                              'regex'])],
+                                         spec=sp, pre=pre, iters=it)
+        elif layer == 'twofiles':
+            for fs in two_file_sets(tier):
+                places = [f['sub'] for f in fs]
+                for pre in (0, 1):
+                    for sp in specs_for(places, pre):
+                        if sp == 'none':
+                            continue
+                        for it in ((1, 2) if tier == 'thorough' else (2,)):
+                            yield mk(out=['plain'], files=fs, spec=sp,
+                                     pre=pre, iters=it)
         elif layer == 'lines2':
             for a in T:
                 for b in T:
@@ -302,7 +373,8 @@ class C11(Check):
                        'generation-leaves-other-files-alone',
                        {'case': b.case, 'path': rel, 'before': st,
                         'after': after[rel]}, sub)
-        protected = set(os.path.join(b.cwd, rel) for rel in before
+        protected = set(os.path.normpath(os.path.join(b.cwd, rel))
+                        for rel in before
                         if not rel.endswith('/') and rel not in outputs
                         and not rel.startswith('ref/')
                         and rel != os.path.basename(b.script))
@@ -359,10 +431,12 @@ class C11(Check):
         else:
             b = H.build(case)
         case = b.case
-        before = gh.snapshot(b.cwd)
-        g = H.generate(b)
+        before = H.snap(b)
+        # outputs that exist already: let the file system clock tick so that
+        # "written after the snapshot" does not depend on ctime granularity
+        g = H.generate(b, settle=0.03 if (case.get('pre') or prev) else 0.0)
         R.ev()
-        after = gh.snapshot(b.cwd)
+        after = H.snap(b)
         basenames = [os.path.basename(rel) for rel, _, _ in b.files]
         has_output = bool(case['out'] or case['err'] or case['files'])
         self.check_untouched(R, b, before, after, g, sub)
@@ -405,7 +479,34 @@ class C11(Check):
             return R
         refs = spec.expected_refs(case, basenames)
         if refs is None:
+            # names of the copies are not documented: every stream / output
+            # must still have a reference copy of its own
             R.unspec += 1
+            have = []
+            if os.path.isdir(b.refdir):
+                for n in sorted(os.listdir(b.refdir)):
+                    p = os.path.join(b.refdir, n)
+                    if os.path.isfile(p):
+                        with open(p, 'rb') as f:
+                            have.append(f.read())
+            want = [H.expected_file(b, dname, H.gtmp)
+                    for _, dname, _ in b.files]
+            if not case['no_stdout']:
+                want.append(H.expected_stdout(b, H.gtmp))
+            if not case['no_stderr']:
+                want.append(H.expected_stderr(b, H.gtmp))
+            pool = list(have)
+            lost = []
+            for w in want:
+                if w in pool:
+                    pool.remove(w)
+                else:
+                    lost.append(repr(w[:60]))
+            if lost:
+                R.viol('reference-lost:%s' % spec.collision_kind(
+                    case, basenames), 'reference-files-hold-the-outputs',
+                    {'case': case, 'no_reference_holds': lost,
+                     'refdir': sorted(os.listdir(b.refdir))}, sub)
         else:
             for r in refs:
                 p = os.path.join(b.refdir, r)
@@ -454,10 +555,15 @@ class C11(Check):
         nbad = sum(1 for v in tests.values() if v != 'ok') + len(run['other'])
         R.out('ran t=%d bad=%d excl=%s txt=%d bin=%d'
               % (len(tests), nbad, feat or '-', ntxt, nbin))
-        want_tests, names_ok = spec.expected_tests(case, basenames)
+        want_tests, names_ok, groups = spec.expected_tests(case, basenames)
         guards = {}
         for t, gd in want_tests.items():
             guards[t] = gd
+        ckind = spec.collision_kind(case, basenames)
+        for pfx, members in groups.items():
+            for t in tests:
+                if t.startswith(pfx) and t not in guards:
+                    guards[t] = ('group', pfx, members)
         if names_ok:
             missing = sorted(set(want_tests) - set(tests))
             extra = sorted(set(tests) - set(want_tests))
@@ -479,11 +585,22 @@ class C11(Check):
                 return R
         else:
             R.unspec += 1
-            if len(tests) != spec.expected_count(case, basenames):
-                R.viol('test-count:%d-of-%d' % (
-                    len(tests), spec.expected_count(case, basenames)),
+            missing = sorted(set(want_tests) - set(tests))
+            for pfx, members in groups.items():
+                have = [t for t in tests if t.startswith(pfx)
+                        and t not in want_tests]
+                if len(have) < len(members):
+                    missing.append('%s*(%d of %d)' % (pfx, len(have),
+                                                      len(members)))
+            if missing or len(tests) != spec.expected_count(case, basenames):
+                R.viol('test-count:%s:%s' % (
+                    'short' if len(tests) < spec.expected_count(
+                        case, basenames) else 'other', ckind),
                     'one-test-per-stream-file-status',
-                    {'case': case, 'tests': sorted(tests)}, sub)
+                    {'case': case, 'tests': sorted(tests),
+                     'missing': missing,
+                     'expected_count': spec.expected_count(case, basenames)},
+                    sub)
         for o in run['other']:
             R.viol('class-level-error', 'generated-test-passes',
                    {'case': case, 'error': o}, sub)
@@ -491,13 +608,21 @@ class C11(Check):
             if tests[t] == 'ok':
                 continue
             gname = self.guardname(b, guards.get(t))
+            if gname.startswith('group'):
+                R.viol('test-fails:%s:%s:n%s:%s' % (
+                    gname, tests[t], '1' if case['iters'] == 1 else '2+',
+                    ckind), 'generated-test-passes',
+                    {'case': case, 'test': t, 'result': tests[t],
+                     'message': run['details'].get(t, '')[-400:]}, sub)
+                continue
             if gname == 'stdout':
                 cl = self.classes(case['out'])
             elif gname == 'stderr':
                 cl = self.classes(case['err'])
             elif gname.startswith('file-'):
                 f = case['files'][guards[t][1]]
-                cl = self.classes(f.get('lines')) + ('', ':sub', ':tmp')[
+                cl = self.classes(f.get('lines')) + (
+                    '', ':sub', ':tmp', ':alt', ':sibling', ':elsewhere')[
                     f.get('sub') or 0]
             else:
                 cl = '-'
@@ -520,6 +645,9 @@ class C11(Check):
     def guardname(b, gd):
         if gd is None:
             return 'unknown'
+        if gd[0] == 'group':
+            return 'group-' + '+'.join(sorted(set(
+                'file' if m[0] == 'file' else m[0] for m in gd[2])))
         if gd[0] == 'file':
             return 'file-%s' % b.files[gd[1]][2]
         return gd[0]
